@@ -90,7 +90,7 @@ def _install_clock(clock):
     return ep, None
 
 
-def h_hist(calls, events):
+def h_hist(calls, events, nonblocking=False):
     """calls: list of client call names; events: list of server event names.  Symbolic: close status, reason,
     payload bytes.  Checks clauses (a)-(c) of the property over the whole history."""
     quiet_logging()
@@ -98,12 +98,12 @@ def h_hist(calls, events):
     clock = Clock()
     C, real_time = _install_clock(clock)
     try:
-        _h_hist(calls, events, clock)
+        _h_hist(calls, events, clock, nonblocking)
     finally:
         C.restore()
 
 
-def _h_hist(calls, events, clock):
+def _h_hist(calls, events, clock, nonblocking=False):
     Proto, Payload, Closed, Timed = _excs()
     inc = []
     for i, ev in enumerate(events):
@@ -124,9 +124,9 @@ def _h_hist(calls, events, clock):
     if not inc or inc[-1] not in ("eof", "reset", ("silence",)):
         inc.append(("silence",))
     sock = TSock(clock, inc)
-    sock.timeout = 5
+    sock.timeout = 0 if nonblocking else 5  # non-blocking: a select-driven application (socket timeout 0); end of stream is still a loss
     ws = new_ws(sock, get_mask_key=KeySource([bytes(4)] * 32))
-    ws.settimeout(5)
+    ws.settimeout(0 if nonblocking else 5)
     released = False  # reference: the connection was closed by close()/shutdown() or observed lost
     why = None
     closes_expected = []  # (origin, payload) of the close frames the client is expected to have written, in order
@@ -353,11 +353,20 @@ def obligations(tier):
                     if any(e in ("eof", "reset", "silence") for e in events[:-1]):
                         continue
                     hist.append(dict(calls=list(calls), events=list(events)))
+    # the same on a non-blocking transport (round 8): histories whose server script ends in end of stream
+    nb = []
+    for calls in itertools.product(("send", "recv", "ping", "close"), repeat=3):
+        if "recv" not in calls:
+            continue
+        for events in (("eof",), ("text", "eof"), ("ping", "eof"), ("close0", "eof")):
+            nb.append(dict(calls=list(calls), events=list(events), nonblocking=True))
+    hist += nb
     servers = ["silent", "answering", "data-then-close", "chatty", "eof", "flood0"]
     return [
         Obligation("H-hist", h_hist, hist,
                    bounds="all sequences of <=%d client calls over {send, recv, ping, close, send_close, shutdown} x all server scripts of <=%d events over "
-                          "{data, ping, close without/with body, end of stream, reset, silence}; close status symbolic in [-2, 70001], reason 2 symbolic bytes"
+                          "{data, ping, close without/with body, end of stream, reset, silence}; close status symbolic in [-2, 70001], reason 2 symbolic bytes; "
+                          "plus 3-call histories with a receive on a NON-BLOCKING transport whose server script ends in end of stream"
                           % (maxc, maxe), must_cover=["history", "after-release", "status-refused", "close-frame"],
                    budget_s=3000 if thorough else 1200,
                    kernel=["WebSocket.close", "send_close", "shutdown", "send", "ping", "recv_data_frame (close branch)", "_send", "_recv",
